@@ -30,7 +30,7 @@ impl Prop for C18 {
         "C18"
     }
     fn rule(&self) -> String {
-        "single-edge graphs of both directions, with and without self-loops, n in 1..=14 (and one case in 3000 with a procedurally generated sparse graph of 200..2500 nodes, tolerance capped at 0.2/n), unweighted or non-negative dyadic weights (zeros included), shapes with slow convergence (paths, bipartite/layered DAGs, stars) and fast (regular, complete); every graph is evaluated on the grid max_iter in {1,2,5,20,100,1000} x 3 generated tolerances in [1e-12,1e-2], each call repeated twice (summation order varies with hash order). On Ok(x): one entry per node, all >= 0, | ||x||_2 - 1 | <= 1e-9, and one further documented step y = normalise(x + A^T x) satisfies ||y - x||_2 <= 2 ||I + A^T||_F n tol + 1e-9 (derived from the convergence test; sound for n <= 14, see DESIGN.md). On Err: PowerIterationFailedConvergence. Large graphs (incl. one fixed graph of 66 000 nodes) are additionally evaluated, as generated and in a very sparse variant (one edge in sixteen, hubs removed), at tolerances 1e-2, 5e-3 and the generated one, where entries, signs and the unit norm are checked. Metamorphic: Ok at (k, tol) => Ok at any (k' >= k, tol' >= tol(1+1e-6)). Non-trivial = n >= 3, the graph is an asymmetric directed graph or a slow-converging shape, and both Ok and Err outcomes occur on the grid; distinct = distinct serialised case.".into()
+        "single-edge graphs of both directions, with and without self-loops, n in 1..=14 (and one case in 3000 with a procedurally generated sparse graph of 200..2500 nodes, tolerance capped at 0.2/n), unweighted or non-negative dyadic weights (zeros included; also amounts of about 1e18, next to which the identity shift vanishes), shapes with slow convergence (paths, bipartite/layered DAGs, stars) and fast (regular, complete); every graph is evaluated on the grid max_iter in {1,2,5,20,100,1000} x 3 generated tolerances in [1e-12,1e-2], each call repeated twice (summation order varies with hash order). On Ok(x): one entry per node, all >= 0, | ||x||_2 - 1 | <= 1e-9, and one further documented step y = normalise(x + A^T x) satisfies ||y - x||_2 <= 2 ||M||_F n tol / max(1, ||M x|| - ||M||_F n tol) + 1e-9 with M = I + A^T (derived from the convergence test; sound for n <= 14, see DESIGN.md). On Err: PowerIterationFailedConvergence. Large graphs (incl. one fixed graph of 66 000 nodes) are additionally evaluated, as generated and in a very sparse variant (one edge in sixteen, hubs removed), at tolerances 1e-2, 5e-3 and the generated one, where entries, signs and the unit norm are checked. Metamorphic: Ok at (k, tol) => Ok at any (k' >= k, tol' >= tol(1+1e-6)). Non-trivial = n >= 3, the graph is an asymmetric directed graph or a slow-converging shape, and both Ok and Err outcomes occur on the grid; distinct = distinct serialised case.".into()
     }
     fn assumptions(&self) -> Vec<String> {
         vec![
@@ -59,7 +59,7 @@ impl Prop for C18 {
             n * 2 + 1
         }
         let big = big_graph_strategy(&[0, 1], 200, tier_max_nodes(_tier), &[0, 1]);
-        (prop_oneof![3000 => graph_strategy(&SINGLE_KINDS, 1, 14, me, &[0, 1, 2, 3], 5), 1 => big], proptest::collection::vec(any::<u8>(), 3), any::<bool>()).prop_map(|(g, tols, weighted)| EigCase { g, tols, weighted }).boxed()
+        (prop_oneof![3000 => graph_strategy(&SINGLE_KINDS, 1, 14, me, &[0, 1, 2, 3, 12], 5), 1 => big], proptest::collection::vec(any::<u8>(), 3), any::<bool>()).prop_map(|(g, tols, weighted)| EigCase { g, tols, weighted }).boxed()
     }
     fn random_cases(&self, tier: Tier) -> u32 {
         tier.pick(30_000, 400_000)
@@ -160,7 +160,10 @@ impl Prop for C18 {
                             let ny: f64 = y.iter().map(|e| e * e).sum::<f64>().sqrt();
                             y.iter_mut().for_each(|e| *e /= ny);
                             let diff: f64 = y.iter().zip(&v).map(|(p, q)| (p - q) * (p - q)).sum::<f64>().sqrt();
-                            let bound = 2.0 * fro * n as f64 * tol + 1e-9;
+                            // ||y - x|| <= 2 ||M (x - x_prev)|| / ||M x_prev|| and ||M x_prev|| >= ||M x|| -
+                            // ||M|| ||x - x_prev|| (and >= 1, as M = I + A^T has no negative entry)
+                            let slack = fro * n as f64 * tol;
+                            let bound = 2.0 * slack / (ny - slack).max(1.0) + 1e-9;
                             if std::env::var("VERIF_DEBUG").is_ok() {
                                 eprintln!("C18 debug: n={} max_iter={} tol={:e} diff={:e} bound={:e} fro={}", n, mi, tol, diff, bound, fro);
                             }
